@@ -155,9 +155,11 @@ def judge(ctx, st, api, method, params, rpcid, version, mresp, notify, cname, co
         else:
             exp["error"] = None
     else:
-        err = {"code": params.faultCode, "message": params.faultString}
-        if params.data is not None:
-            err["data"] = gen.jn(params.data)
+        # what the harness passed to the Fault constructor (not what the object holds afterwards)
+        fcode, fmsg, fdata = getattr(params, "_vf_args", (params.faultCode, params.faultString, params.data))
+        err = {"code": fcode, "message": fmsg}
+        if fdata is not None:
+            err["data"] = gen.jn(fdata)
         exp["error"] = err
         exp["id"] = rpcid
         if v >= 2:
@@ -252,18 +254,24 @@ def one(ctx, st, jr, api, method, params, rpcid, version, mresp, notify, cname, 
 def _ptrepr(params):
     import jsonrpclib
     if isinstance(params, jsonrpclib.Fault):
-        return "Fault(%s,%s,%s)" % (gen.trepr(params.faultCode), gen.trepr(params.faultString),
-                                    gen.trepr(params.data))
+        a = getattr(params, "_vf_args", (params.faultCode, params.faultString, params.data))
+        return "Fault(%s,%s,%s,%s)" % (gen.trepr(a[0]), gen.trepr(a[1]), gen.trepr(a[2]),
+                                       getattr(params.config, "use_jsonclass", None))
     return gen.trepr(params)
 
 
 def faults():
     import jsonrpclib
+    import jsonrpclib.config
     out = []
     for code in (-32700, -32600, -32000, 0, 1, -1, 500, 2 ** 40, 1.5):
         for msg in ("m", "", "é\nx"):
-            for data in (None, 0, "", [], {}, False, "d", {"k": [1, (2,)]}, [None]):
-                out.append(jsonrpclib.Fault(code, msg, data=data))
+            for data in (None, 0, "", [], {}, False, 0.0, (), "d", {"k": [1, (2,)]}, [None]):
+                for cfg in (None, jsonrpclib.config.Config(use_jsonclass=False)):
+                    f = jsonrpclib.Fault(code, msg, data=data) if cfg is None else \
+                        jsonrpclib.Fault(code, msg, data=data, config=cfg)
+                    f._vf_args = (code, msg, data)
+                    out.append(f)
     return out
 
 
@@ -321,6 +329,7 @@ def run(ctx):
     for code, msg, data, rid in itertools.product((-32603, 7), ("m",), (None, 0, {"a": 1}), (None, 0, 5, "x")):
         for cname, cfg in cfgs:
             f = jsonrpclib.Fault(code, msg, rpcid=rid, config=cfg, data=data)
+            f._vf_args = (code, msg, data)
             for how in ("response", "dump"):
                 try:
                     got = json.loads(f.response()) if how == "response" else gen.jn(f.dump())
@@ -362,7 +371,9 @@ def run(ctx):
             data = gen.json_value(rng, 3, 3, falsy_bias=0.4)
             if not gen.json_text_ok(data):
                 continue
-            f = jsonrpclib.Fault(rng.choice([gen.rand_int(rng), -32000, -32700]), gen.rand_str(rng), data=data)
+            fc, fm = rng.choice([gen.rand_int(rng), -32000, -32700]), gen.rand_str(rng)
+            f = jsonrpclib.Fault(fc, fm, data=data)
+            f._vf_args = (fc, fm, data)
             one(ctx, st, jr, rng.choice(("dumps", "dump")), None, f, rpcid, version, True, None, cname, cfg)
 
 
